@@ -147,6 +147,22 @@ Definition scal_num (e : env) (name : string) : num :=
 Definition leb (a b : num) : bool := n_ltb ops a b || n_eqb ops a b.     (* C <= *)
 Definition geb (a b : num) : bool := n_ltb ops b a || n_eqb ops a b.     (* C >= *)
 
+(* the two loop tests, exactly as written in cmdfor and cmdnext *)
+Definition for_skips (st v mx : num) : bool :=
+  (geb st (zero num ops) && gtb num ops v mx) || (leb st (zero num ops) && n_ltb ops v mx).
+Definition next_continues (st v' mx : num) : bool :=
+  (n_ltb ops st (zero num ops) || leb v' mx) && (gtb num ops st (zero num ops) || geb v' mx).
+
+(* number of executions of the body of FOR v = a TO mx STEP st when the body leaves v alone
+   (fuel bounds the number of NEXTs counted) *)
+Fixpoint next_count (f : nat) (v mx st : num) : nat :=
+  match f with
+  | O => O
+  | S f' => let v' := n_add ops v st in if next_continues st v' mx then S (next_count f' v' mx st) else O
+  end.
+Definition trip_count (f : nat) (v mx st : num) : nat :=
+  if for_skips st v mx then O else S (next_count f v mx st).
+
 (* ------------------------------------------------------------------ statements *)
 Definition cmdlet (s : state) (name : string) (t : list tok) : res state :=
   let e := s_env s in
@@ -277,7 +293,7 @@ Definition cmdfor (s : state) (t : list tok) : res state :=
                   end) (fun p3 =>
             let v := fst p1 in let mx := fst p2 in let st := fst p3 in let t' := snd p3 in
             let s1 := with_env s e1 in
-            if (geb st (zero num ops) && gtb num ops v mx) || (leb st (zero num ops) && n_ltb ops v mx) then
+            if for_skips st v mx then
               bind (for_skip scan_fuel name (s_line s) t' 0%Z 0%Z) (fun o =>
                 match o with
                 | None => Err "FOR without NEXT"
@@ -313,7 +329,7 @@ Definition cmdnext (s : state) (t : list tok) : res state :=
     | LFor name mx st hl ht :: rest =>
         let v' := n_add ops (scal_num e name) st in
         let e' := assign e (TScal name) (VNum v') in
-        if (n_ltb ops st (zero num ops) || leb v' mx) && (gtb num ops st (zero num ops) || geb v' mx) then
+        if next_continues st v' mx then
           Ok (with_pos (with_loops (with_env s e') l) hl ht)
         else Ok (with_t (with_loops (with_env s e') rest) (snd pv))
     | _ => Err "NEXT without FOR"
